@@ -8,4 +8,12 @@ def killsGroup : Bool := true
 def timeoutBranchKills : Bool := true
 def normalBranchSignals : Bool := false
 def setpgid : Bool := true
+-- skelExecTail: v5 := v1.Start() ; if v5 != nil { return nil, nil, v5 } ; v6 := make(chan error) ; r0.registerProcess(v1, v6) ; defer r0.removeProcess(v1) ; go runCommand(v1, v6) ; select { case v5 = <-v6: case <-p0.Done(): v5 = p0.Err() r0.KillProcess(v1) } ; return v2.Bytes(), v3.Bytes(), v5
+def skelExecTail : String := "f74bcb32d39662302e2306ce"
+-- skelKillProcess: v0 := sendSignal(p0, p1, syscall.SIGTERM, 30*time.Millisecond) ; if !sendSignal(p0, p1, syscall.SIGKILL, time.Second) && !v0 { log.Error("…") } ; r0.removeProcess(p0)
+def skelKillProcess : String := "6a294cfd14bbeb170da37bfa"
+-- skelSendSignal: if p0.Process == nil { log.Debug("…") return false } ; log.Debug("…", p2, p0.Process.Pid) ; syscall.Kill(-p0.Process.Pid, p2) ; select { case <-p1: return true case <-time.After(p3): return false }
+def skelSendSignal : String := "97b85005a7072dca44ca96ed"
+-- skelRunCommand: p1 <- p0.Wait()
+def skelRunCommand : String := "ece69639c4827fb8fd1c00f4"
 end PlzVerif.Generated.C30
